@@ -57,6 +57,12 @@ def standardPrefix (width32 : Bool) : List Line :=
 def procnameOk (s : String) : Bool :=
   !s.isEmpty && s.toList.all (fun c => ('a' ≤ c && c ≤ 'z') || ('A' ≤ c && c ≤ 'Z') || ('0' ≤ c && c ≤ '9') || c == '_')
 
+/-- the procedure name `convert` ends up using: none without bundle/headers, the given name when it
+is a full match of `[a-zA-Z0-9_]+`, `program` otherwise -/
+def effProcname (o : Options) : String :=
+  if o.skipProcedureHeaders || !o.outputDependencies then ""
+  else if procnameOk o.procname then o.procname else "program"
+
 /-! ### collecting passes (folds over the visit events) -/
 
 def dimEntryNames (vs : List Expr) : List String := vs.map Emit.dimName
@@ -191,8 +197,7 @@ def containsCrash (s : String) : Option String :=
 procedure bank -/
 def convertAst (o : Options) (p0 : Prog) : Outcome × String :=
   let p := if o.addStandardPrefix then { p0 with lines := standardPrefix o.defaultWidth32 ++ p0.lines } else p0
-  let skipHeaders := o.skipProcedureHeaders || !o.outputDependencies
-  let procname := if skipHeaders then "" else if procnameOk o.procname then o.procname else "program"
+  let procname := effProcname o
   let p := { p with procname := procname }
   -- the first traversal reaches every node a later one reaches: a leaked node fails here
   match firstCrash (Visit.prog p) with
